@@ -223,6 +223,10 @@ class Flow:
         if not has:
             return
 
+        test_rf, flipped = tab.canon_cond(test_rf)
+        if flipped:
+            truth = not truth
+
         def f(a, at, nargs):
             if at.head == 'guard' and tab.arg_eq(nargs[0], test_rf):
                 return nargs[1] if truth else nargs[2]
